@@ -28,6 +28,24 @@ def stepRes (st : ResState) (args : List Sx) : ResState × String × String × B
                               | some w => (match w.set k.bytes! v with | .ok w' => some w' | _ => none)
                               | none => none }
     (st', resObs st', "-", true)
+  -- type edits of the soft resource alone (a wrapped struct cannot change its type)
+  | [.atom "soft", .atom "addattr", a] =>
+    let st' := { st with soft := st.soft.addAttr (decAttr a) }
+    (st', (encResView st'.soft.view).toStr, "-", true)
+  | [.atom "soft", .atom "addrel", r] =>
+    let st' := { st with soft := st.soft.addRel (decRel r) }
+    (st', (encResView st'.soft.view).toStr, "-", true)
+  | [.atom "soft", .atom "removefield", f] =>
+    let st' := { st with soft := st.soft.removeField f.bytes! }
+    (st', (encResView st'.soft.view).toStr, "-", true)
+  | [.atom "soft", .atom "settype", t] =>
+    let st' := { st with soft := st.soft.setType (decTyp t) }
+    (st', (encResView st'.soft.view).toStr, "-", true)
+  | [.atom "soft", .atom "settype-unread", t] =>
+    ({ st with soft := st.soft.setType (decTyp t) }, "-", "-", true)
+  | [.atom "soft", .atom "set", k, v] =>
+    let st' := { st with soft := st.soft.set k.bytes! (decVal v) }
+    (st', (encResView st'.soft.view).toStr, "-", true)
   | [.atom "equal", _tags, a, b] =>
     let a := decResView a; let b := decResView b
     let o := match equal a b, equalStrict a b with
